@@ -54,6 +54,7 @@ static void check_axis(Ctx &c, const Dim &D, const std::vector<long> &sample_idx
     // outside the axis
     double x0 = a.x(0);
     ps.push_back({x0 - 1.0 - r.real() * 10, "below"}); ps.push_back({std::nextafter(x0, -INFINITY), "ulp-below-first"});
+    ps.push_back({x0 - (double)r.range(1, 3), "below-whole-steps"}); if (a.kind == Axis::Sampled) ps.push_back({a.x(0) - a.dt * (double)r.range(1, 3), "below-whole-steps"});   // whole units / sampling steps before the first coordinate
     if (n < Axis::UNBOUNDED) { double xl = a.x(n - 1); ps.push_back({xl + 0.5 + r.real() * 10, "above"}); ps.push_back({std::nextafter(xl, INFINITY), "ulp-above-last"}); }
     ps.push_back({-0.0, "negzero"});
     c.count("positions", (long)ps.size());
@@ -117,6 +118,26 @@ static void check_axis(Ctx &c, const Dim &D, const std::vector<long> &sample_idx
             if (uvec_ok && uvec.size() == ss.size()) c.check(show(uvec[k]) == show(got), "C07/overload/pair-util/" + kind, [&] { return a.describe() + " start=" + pos_str(ss[k]) + " end=" + pos_str(es[k]) + " scalar=" + show(got) + " util=" + show(uvec[k]); });
         }
         if (vec_ok) c.check(vec.size() == ss.size(), "C07/overload/pair-vector/" + kind + "/length", "vector overload returned " + str(vec.size()) + " for " + str(ss.size()));
+    }
+    // --- vector overload with a unit per entry (the axis unit, a prefix-scaled unit, or "none"): every entry must convert like the scalar overload does
+    if (with_units && !a.unit.empty() && (a.kind == Axis::Sampled || a.kind == Axis::Range)) {
+        std::string base = a.unit.substr(a.unit.size() - 1); static const char *pre[] = {"", "m", "k", "u"};
+        for (int rep = 0; rep < 3; rep++) {
+            std::vector<double> vs, ve; std::vector<std::string> vu; size_t n = 2 + r.u(4);
+            for (size_t k = 0; k < n; k++) { const PosC &s0 = ps[r.u(ps.size())]; const PosC &e0 = ps[r.u(ps.size())]; std::string u = r.chance(0.3) ? std::string("none") : std::string(r.pick(pre)) + base; double f = u == "none" ? 1.0 : util::getSIScaling(u, a.unit); double sp = s0.p / f, ep = e0.p / f; if (sp > ep) std::swap(sp, ep); vs.push_back(sp); ve.push_back(ep); vu.push_back(u); }
+            RangeMatch m = r.chance(0.5) ? RangeMatch::Inclusive : RangeMatch::Exclusive;
+            c.op(std::string("positionToIndex-vector per-entry-units ") + kind + " " + rm_name(m));
+            std::vector<boost::optional<std::pair<ndsize_t, ndsize_t>>> got; try { got = D.utilPairs(vs, ve, vu, m); } catch (std::exception &e) { c.check(false, "C07/unit/vector-per-entry/exception", a.describe() + " threw " + e.what()); continue; }
+            for (size_t k = 0; k < n && k < got.size(); k++) {
+                double f = vu[k] == "none" ? 1.0 : util::getSIScaling(vu[k], a.unit); PairIdx want = oracle_pair(a, vs[k] * f, ve[k] * f, m);
+                bool same = want.valid ? (got[k] && (long)got[k]->first == want.lo && (long)got[k]->second == want.hi) : !got[k];
+                c.check(same, std::string("C07/unit/vector-per-entry/") + kind + (vu[k] == "none" ? "/none-entry" : "/unit-entry"), [&] { std::string us; for (auto &u : vu) us += u + ","; return a.describe() + " units=[" + us + "] entry " + str(k) + " start=" + pos_str(vs[k]) + " end=" + pos_str(ve[k]) + " library=" + (got[k] ? "(" + str(got[k]->first) + "," + str(got[k]->second) + ")" : std::string("none")) + " oracle=" + (want.valid ? "(" + str(want.lo) + "," + str(want.hi) + ")" : std::string("none")); });
+            }
+        }
+        // scalar overload with a prefix-scaled unit
+        for (int k = 0; k < 10; k++) { const PosC &pc = ps[r.u(ps.size())]; PositionMatch m = RULES[r.u(5)]; std::string u = std::string(r.pick(pre)) + base; double f = util::getSIScaling(u, a.unit); double p = pc.p / f;
+            c.op("positionToIndex scaled-unit " + kind); long want = oracle_index(a, p * f, m), g = -2; try { auto o = D.utilIndex(p, u, m); g = o ? (long)*o : -1; } catch (std::exception &) { g = -3; }
+            c.check(g == want, "C07/unit/scaled/" + kind + "/" + match_name(m), [&] { return a.describe() + " p=" + pos_str(p) + " " + u + " got=" + str(g) + " oracle=" + str(want); }); }
     }
     // --- with a unit: a position given in a scaled unit converts like the scaled position
     if (with_units && !a.unit.empty() && (a.kind == Axis::Sampled || a.kind == Axis::Range)) {
@@ -234,7 +255,7 @@ static void run_case(Ctx &c) {
 
 static long ncases(const std::string &tier) { return tier == "quick" ? 64 : 1600; }
 // pinned cases for the findings of known_findings.json
-static std::vector<std::string> witnesses() { return {"d7-sampled-decimal", "d7-set-frame-epsilon"}; }
+static std::vector<std::string> witnesses() { return {"d7-sampled-decimal", "d7-set-frame-epsilon", "d26-none-entry-after-unit"}; }
 static void run_witness(Ctx &c, const std::string &name) {
     File f = File::open(c.path("c07w.nix"), FileMode::Overwrite);
     Block b = f.createBlock("b", "t");
@@ -266,6 +287,12 @@ static void run_witness(Ctx &c, const std::string &name) {
             std::vector<long> idx; for (long i = 0; i < R; i++) idx.push_back(i);
             check_axis(c, D, idx, false);
         }
+    }
+    else if (name == "d26-none-entry-after-unit") {
+        DataArray da = b.createDataArray("u", "t", DataType::Double, NDSize{2}); Dim D; D.ax.kind = Axis::Sampled; D.ax.dt = 1.0; D.ax.off = 0.0; D.ax.unit = "s"; D.sd = da.appendSampledDimension(1.0, "", "s");
+        c.op("positionToIndex-vector per-entry-units sampled Inclusive");
+        auto got = util::positionToIndex({2000.0, 3.0}, {5000.0, 7.0}, {"ms", "none"}, RangeMatch::Inclusive, D.sd);
+        c.check(got.size() == 2 && got[1] && got[1]->first == 3 && got[1]->second == 7, "C07/unit/vector-per-entry/sampled/none-entry", std::string("units {ms, none}: the unit-less entry [3,7] converted to ") + (got.size() == 2 && got[1] ? "(" + str(got[1]->first) + "," + str(got[1]->second) + ")" : std::string("none")));
     }
     c.nontrivial = true;
     f.close();
